@@ -126,6 +126,9 @@ def run_history(exe, calls, sandbox_root, hid, setup=(), argv=(), env=(), ls_aft
     for j, c in enumerate(calls):
         if c.get("fault"):
             lines.append("inject %s %d" % (c["family"], getattr(errno_mod, c["fault"])))
+        # (where the guest keeps the path is its own business: now and then its last byte is the last byte of linear memory)
+        if c.get("path_at_end") is not None:
+            lines.append("pathsatend %d" % (1 if c["path_at_end"] else 0))
         lines.append(script_line(c, sb))
         index.append(("call", j))
         if c["call"] in ls_after:
